@@ -103,6 +103,35 @@ RAISING_BUILTIN_METHODS: Dict[str, Tuple[str, ...]] = {
     "set.remove": ("KeyError",), "set.pop": ("KeyError",),
 }
 
+def _format_arity_ok(call: ast.AST) -> bool:
+    """'...{}...{}'.format(a, b): a constant template whose fields are all plain `{}` (or `{0}`-style within range / names
+    given as keywords) cannot raise KeyError / IndexError"""
+    import string
+    if not (isinstance(call, ast.Call) and isinstance(call.func, ast.Attribute) and isinstance(call.func.value, ast.Constant)
+            and isinstance(call.func.value.value, str)):
+        return False
+    if any(isinstance(a, ast.Starred) for a in call.args) or any(k.arg is None for k in call.keywords):
+        return False
+    try:
+        fields = [f for _, f, _, _ in string.Formatter().parse(call.func.value.value) if f is not None]
+    except ValueError:
+        return False
+    auto = 0
+    kw = {k.arg for k in call.keywords}
+    for f in fields:
+        head = f.split(".")[0].split("[")[0]
+        if head == "":
+            auto += 1
+            if auto > len(call.args):
+                return False
+        elif head.isdigit():
+            if int(head) >= len(call.args):
+                return False
+        elif head not in kw:
+            return False
+    return True
+
+
 # ---------------------------------------------------------------------------------------------
 
 AP = Tuple[object, Tuple[str, ...]]     # (root, path)
@@ -284,6 +313,8 @@ class Analysis:
                     self.unclassified_ext.add(t.name)
                     out.append(EXC)
             elif t.kind == "builtin_method":
+                if t.name == "str.format" and _format_arity_ok(node.ast):
+                    continue        # literal template, plain `{}` fields, matching number of arguments
                 out.extend(RAISING_BUILTIN_METHODS.get(t.name, ()))
             elif t.kind == "user":
                 out.append(EXC)
